@@ -87,6 +87,7 @@ type moResult struct {
 	execs, points, maxPoints int
 	outcomes                 map[string]int
 	capped, unbounded        bool
+	diverged                 string // a replayed prefix met other requests than when it was recorded (state surviving between executions)
 	bad                      string // first offending outcome
 	badChoices               []int
 }
@@ -105,7 +106,10 @@ func exploreMapOrders(bound, maxExecs int, call func() string, admissible func(k
 			}
 			a := moAlts(n)
 			if c >= a {
-				panic(fmt.Sprintf("map-order replay diverged: choice %d of %d at request %d", c, a, i))
+				if res.diverged == "" {
+					res.diverged = fmt.Sprintf("choice %d of %d at request %d", c, a, i)
+				}
+				c = 0
 			}
 			trace = append(trace, moPoint{n, a, c})
 			i++
@@ -116,8 +120,8 @@ func exploreMapOrders(bound, maxExecs int, call func() string, admissible func(k
 		}
 		key := call()
 		jmespath.VerifMapOrder = nil
-		if i < len(prefix) {
-			panic(fmt.Sprintf("map-order replay diverged: only %d of %d recorded requests were made", i, len(prefix)))
+		if i < len(prefix) && res.diverged == "" {
+			res.diverged = fmt.Sprintf("only %d of %d recorded requests were made", i, len(prefix))
 		}
 		res.execs++
 		res.points += len(trace)
@@ -138,6 +142,9 @@ func exploreMapOrders(bound, maxExecs int, call func() string, admissible func(k
 			return
 		}
 		trace := run(prefix)
+		if res.diverged != "" {
+			return // not a function of the order choices alone: inconclusive, the caller reports it as such
+		}
 		if bound >= 0 && devs >= bound {
 			return
 		}
@@ -147,7 +154,7 @@ func exploreMapOrders(bound, maxExecs int, call func() string, admissible func(k
 				copy(np, prefix)
 				np[i] = alt
 				rec(np, devs+1)
-				if res.capped {
+				if res.capped || res.diverged != "" {
 					return
 				}
 			}
@@ -270,7 +277,13 @@ func mapOrderPass(c *shardCtx, prop string, panicsOnly bool) {
 			}
 			var last interface{}
 			call := func() string {
-				res, serr, pn := impl.Search(jp, model.Copy(d))
+				// a fresh compiled expression per execution: whatever a compiled expression memoises must not make
+				// one execution depend on the previous one
+				jpx, cerrx, pnx := impl.Compile(e.text)
+				if cerrx != nil || pnx != nil {
+					jpx = jp
+				}
+				res, serr, pn := impl.Search(jpx, model.Copy(d))
 				last = res
 				switch {
 				case pn != nil:
@@ -303,6 +316,7 @@ func mapOrderPass(c *shardCtx, prop string, panicsOnly bool) {
 			// iterate the deviation bound: 1, 2, (3); a larger bound is attempted only when the previous one needed
 			// few executions, so no execution cap is ever hit and the bound completed is known per pair; calls that
 			// make few order requests are then explored without any bound
+			call() // warm-up outside the exploration: lazily initialised package-level state is built now
 			var r moResult
 			completed := 0
 			for b := 1; b <= bound; b++ {
@@ -311,11 +325,16 @@ func mapOrderPass(c *shardCtx, prop string, panicsOnly bool) {
 				rb.points += r.points
 				r = rb
 				completed = b
-				if r.bad != "" || rb.capped || rb.execs > 4000 {
+				if r.bad != "" || rb.capped || rb.diverged != "" || rb.execs > 4000 {
 					break
 				}
 			}
-			if r.bad == "" && !r.capped && r.maxPoints > 0 && r.maxPoints <= unboundedBelow {
+			if r.diverged != "" {
+				// state that survives between executions (a process-wide cache, a pool) makes a replayed prefix meet other
+				// requests: a limit of stateless exploration, not a violation; the pair is reported as not explored
+				c.add("maporder_pairs_inconclusive", 1)
+				c.res.Capped = "map-order replay diverged for at least one pair (state surviving between executions): not explored exhaustively - " + r.diverged
+			} else if r.bad == "" && !r.capped && r.maxPoints > 0 && r.maxPoints <= unboundedBelow {
 				r2 := exploreMapOrders(-1, 200000, call, admissible)
 				r2.execs += r.execs
 				r2.points += r.points
